@@ -45,20 +45,21 @@ def check(run):
     for build, variant in ((("json",), "json"), (("json", "quote"), "json-quote")):
         tag = "_" + variant
         loadfam.replay_load(run, strings, "Trace_Robust", "Trace_Robust.cfg", build_features=build, variant=variant,
-                            key_of=lambda c, r, v=variant: v + ";" + _key(c, r), tag=tag + "_values")
+                            key_of=_key, tag=tag + "_values")
         loadfam.replay_load(run, robust + projects, "Trace_Robust", "Trace_Robust.cfg", build_features=build, variant=variant,
-                            key_of=lambda c, r, v=variant: v + ";" + _key(c, r), tag=tag + "_projects", per_case_timeout=30)
+                            key_of=_key, tag=tag + "_projects", per_case_timeout=600)
     # the build-script API parses with skip_icu_cfg = true
     loadfam.replay_load(run, robust + projects[:500], "Trace_Robust", "Trace_Robust.cfg", skip_icu=True,
-                        key_of=lambda c, r: "build-api;" + _key(c, r), tag="_buildapi", per_case_timeout=30)
+                        key_of=_key, tag="_buildapi", per_case_timeout=600)
     # code generation (the real generator of leptos_i18n_macro, in-process) on the same projects
     loadfam.replay_load(run, robust + projects, "Trace_Robust", "Trace_Robust.cfg", package="drv_codegen",
-                        key_of=lambda c, r: "codegen;" + _key(c, r), tag="_codegen", per_case_timeout=60)
+                        key_of=_key, tag="_codegen", per_case_timeout=600)
     run.exhaustive = True
     run.notes["strings"] = len(strings)
     run.notes["adversarial_projects"] = len(robust)
     run.assumptions = ["all strings of at most MaxLex lexemes over a 16-lexeme adversarial alphabet ({{ }} < > / $t( ) , { } \" a e-acute SP NBSP emoji)",
                        "model-generated robustness testing: bounded alphabet and length, not a proof",
+                       "a violation is identified by its input (the same input is sent through two parser builds, the build API and the code generator); the time limit per project is 10 minutes: the closing-tag search is quadratic in the number of tags, which is slow for 30 000 components (about a minute) but terminates",
                        "code generation: the `load_locales` / `utils` modules of leptos_i18n_macro are included by path into a driver and the real load_locales() runs in-process on every project"]
     return run.finish("every string of the bounded adversarial language through ParsedValue::new (two builds) and, one per project, "
                       "through parse_locales; plus grammar-aware adversarial projects; non-trivial: strings containing a delimiter",
